@@ -13,3 +13,6 @@ OBS.append(Ob(['C12'], 'pnum_8digits', 'numcut', 'harness/pnum.c', 'h_pnum_8digi
               desc='literals D.DDDDDDD (8 significant digits): exact (mantissa, exponent) and double-precision path', bound='all 9*10^7 such literals'))
 OBS.append(Ob(['C12'], 'pnum_long_negexp', 'numcut', 'harness/pnum_big.c', 'h_pnum_long_negexp', unwind=30, cap=600, hunwind=30,
               desc='25-digit mantissa with exponent e-DDD: the zero shortcut only below the double range; scaled pair of the right magnitude', bound='all such literals (10^28)'))
+for nz in (154,):
+    OBS.append(Ob(['C12', 'C13'], 'pnum_many_digits_%d' % (nz + 1), 'numcut', 'harness/pnum_big.c', 'h_pnum_many_digits', defs=['NZ=%d' % nz], unwind=nz + 12, cap=600, hunwind=nz + 12, validate=2,
+              desc="literal '1' + %d zeros + e-DD: scaled pair of the right magnitude (the count of dropped digits does not wrap)" % nz, bound='all 100 exponents; the %d-digit mantissa is concrete' % (nz + 1)))
